@@ -5,7 +5,7 @@ import os
 import random
 
 from . import bf, pool
-from .common import Report, build_harness, log, seed, ToolError
+from .common import replay_witness, Report, build_harness, log, seed, ToolError
 
 WIDTHS = [8, 16, 32, 64]
 SCREEN = {"maxSteps": 5000, "maxEv": 250}
@@ -390,8 +390,37 @@ def nontrivial(done):
 
 
 # ------------------------------------------------------------------ C01-C04
+COMMENT_CHARS = list("a #\n\t!0") + ["\r", "é", "日", "\U0001F600", "ß", "€", "\U00010348", "\u012b", "\u012c", "\u012d",
+                                          "\u012e", "\u013c", "\u013e", "\u015b", "\u015d", "\u4e2b", "\u305b"]
+
+
+def commented_copies(cases, sd, share):
+    """Copies of a share of the cases with comment characters (one to four bytes long in UTF-8,
+    some congruent to a command modulo 256) interleaved; a third of them put the comments inside
+    bracket pairs only, where a skipped loop has to step over them."""
+    rng = random.Random(sd + 29)
+    out = []
+    for c in cases:
+        if rng.random() >= share or not c["prog"]:
+            continue
+        chars = list(c["prog"])
+        inside = rng.random() < 0.34 and "[" in chars
+        for _ in range(rng.randint(1, 6)):
+            if inside:
+                opens = [i for i, ch in enumerate(chars) if ch == "["]
+                chars.insert(rng.choice(opens) + 1, rng.choice(COMMENT_CHARS))
+            else:
+                chars.insert(rng.randint(0, len(chars)), rng.choice(COMMENT_CHARS))
+        c2 = dict(c)
+        c2["prog"] = "".join(chars)
+        c2["id"] = c["id"] + "c"
+        c2["pop"] = "C"
+        out.append(c2)
+    return out
+
+
 def run_equivalence(prop, tier, backend_runs, pops, per_pop, profiles=("release",), adjudicate_max=3000,
-                    before=None):
+                    before=None, comment_share=0.0):
     """Run cases whose canonical run is short on the given configurations,
     validate every distinct recording with TLC."""
     rep = Report(prop, "model_checking", tier)
@@ -401,6 +430,10 @@ def run_equivalence(prop, tier, backend_runs, pops, per_pop, profiles=("release"
     if before and not os.environ.get("VERIF_CASES"):
         before(rep, tier)
     cases = override_cases() or population(bins["release"], tier, sd, pops, per_pop)
+    if comment_share and not os.environ.get("VERIF_CASES"):
+        extra = commented_copies([c for c in cases if c["pop"] != "E" or len(c["prog"]) >= 6], sd, comment_share)
+        rep.count("cases_with_comment_characters", len(extra))
+        cases = cases + extra
     rep.count("cases_generated", len(cases))
     judged = []
     for prof in profiles:
@@ -432,6 +465,10 @@ def run_equivalence(prop, tier, backend_runs, pops, per_pop, profiles=("release"
                             "chosen case is validated by TLC against BF.tla (BFTrace); all cases on which "
                             "recordings differ are chosen, agreeing ones are sampled (prescreened counts all runs)"
                             % (",".join(pops), "/".join(profiles)))
+    if comment_share:
+        rep.coverage["rule"] += ("; population C = copies of %d%% of the cases with comment characters of one to "
+                                 "four UTF-8 bytes interleaved (a third of them directly behind a '[')"
+                                 % round(comment_share * 100))
     if prop == "C01" and not os.environ.get("VERIF_CASES"):
         ir_cross_check(rep, bins, prop, judged, 400 if tier == "quick" else 6000)
     if prop == "C03" and not os.environ.get("VERIF_CASES"):
@@ -516,7 +553,8 @@ def c04(tier):
           {"E": 300000, "rnd": 20000, "S": 20000, "T": 3000, "R": 400, "M": 8000, "N": 2000}
     return run_equivalence("C04", tier, lambda c: [{"backend": "inplace", "level": 0}],
                            ["E", "rnd", "S", "T", "R", "M", "N"], per,
-                           adjudicate_max=3000 if tier == "quick" else 400000, before=design_check_bf)
+                           adjudicate_max=3000 if tier == "quick" else 400000, before=design_check_bf,
+                           comment_share=0.08)
 
 
 def c01(tier):
@@ -941,6 +979,21 @@ def c06(tier):
 def c17(tier):
     rep = Report("C17", "fault_enumeration", tier)
     bins = build_harness(("release",))
+    rw = replay_witness()
+    if rw and rw.get("api"):
+        from . import props_tape as pt
+        extra = {"noprobe": 1}
+        if rw.get("failK") is not None:
+            extra["failK"] = rw["failK"]
+        reqs, traces, verdicts = pt.replay_and_validate(rep, bins["release"], [(rw["w"], rw["calls"], extra)],
+                                                        "C17-replay", alloc=rw.get("alloc", "count"), stream=True,
+                                                        extras=True)
+        v = verdicts[traces[0]["id"]]
+        if v["verdict"] != "accepted":
+            rep.violation({"w": rw["w"], "calls": rw["calls"], "alloc": rw.get("alloc"), "failK": rw.get("failK"),
+                           "end": traces[0]["end"], "tlc": v, "api": 1},
+                          "Memory<u%d> history ended %s: %s" % (rw["w"], traces[0]["end"], v["why"]))
+        return rep.finish()
     judged, cases = c17_runs(tier, rep, bins)
     rep.coverage["evaluations"] = rep.coverage.get("runs_with_injected_allocation_failure", 0)
     rep.coverage["distinct_nontrivial"] = len(cases)
@@ -951,8 +1004,47 @@ def c17(tier):
                             "through SIGABRT or a panic after the refusal with a prefix of the canonical log is "
                             "accepted, SIGSEGV/SIGBUS, a normal return after a refused request, or any event that "
                             "is not canonical is rejected")
+    if not os.environ.get("VERIF_CASES") and not os.environ.get("VERIF_REPLAY"):
+        c17_api_histories(rep, bins["release"], tier)
     settle(rep, "C17", bins, judged, shrink=False)
     return rep.finish()
+
+
+def c17_api_histories(rep, hv, tier):
+    """The same claim on the tape object itself (TapeTrace.tla): call histories in which the k-th
+    growth request is refused, and histories that end in a request no allocator can satisfy (a
+    position 2^62 cells or more away)."""
+    from . import props_tape as pt
+    rng = random.Random(seed() + 41)
+    n = 240 if tier == "quick" else 4000
+    batches = []
+    for alloc in ("count", "guardl", "guardr"):
+        batches.append(([(pt.WIDTHS[i % 4], pt.far_history(rng, True), {"noprobe": 1}) for i in range(n // 3)],
+                        alloc, None))
+    refusing = []
+    for i in range(n):
+        calls = pt.random_history(rng, rng.randint(5, 60), rng.choice([3, 50, 1000]))
+        refusing.append((pt.WIDTHS[i % 4], calls, {"noprobe": 1, "failK": rng.randint(0, 4)}))
+    batches.append((refusing, "failtape", None))
+    ended = 0
+    for k, (hs, alloc, _) in enumerate(batches):
+        # replay_and_validate drops the extras, so the refusal index is put back on the requests
+        reqs, traces, verdicts = pt.replay_and_validate(rep, hv, hs, "C17-api%d" % k, alloc=alloc, stream=True,
+                                                        extras=True)
+        for rq, t in zip(reqs, traces):
+            v = verdicts[t["id"]]
+            if t["end"] != "ok":
+                ended += 1
+            if v["verdict"] != "accepted":
+                rep.violation({"w": rq["w"], "calls": rq["calls"][: v["pos"] + 1], "alloc": alloc,
+                               "failK": rq.get("failK"), "end": t["end"], "tlc": v, "api": 1},
+                              "Memory<u%d> history (allocator mode %s, refused request %s) ended %s: %s" % (
+                                  rq["w"], alloc, rq.get("failK"), t["end"], v["why"]))
+    rep.coverage["api_histories"] = sum(len(b[0]) for b in batches)
+    rep.coverage["api_histories_ended_by_abort_or_panic"] = ended
+    rep.coverage["rule"] += ("; plus call histories on Memory<C> itself, validated by TLC (TapeTrace): the k-th "
+                             "growth request refused (k = 1..5), and histories ending in a write or request at a "
+                             "position 2^62..2^63 cells away, which no allocator can satisfy")
 
 
 CHECKS = {"C01": c01, "C02": c02, "C03": c03, "C04": c04, "C05": c05, "C06": c06, "C07": c07, "C17": c17, "C08": c08, "C10": c10}
